@@ -288,7 +288,16 @@ def run_case(ctx, kind, rng, idx):
 
     # ---------------- (d) striped operations ------------------------------------
     vals = [rng.normal(size=int(rng.integers(1, 9))) for _ in range(size)]
+    # strictly positive values (the gather is meant for lengths) in any
+    # element type, one- or two-dimensional
+    gdt = [np.int64, np.int64, np.int32, np.int16, np.float64, np.float32][
+        int(rng.integers(0, 6))]
     glob_len = np.array([int(x) for x in rng.integers(1, 50, size=ntraj)])
+    if np.issubdtype(gdt, np.floating):
+        glob_len = glob_len + rng.integers(1, 4, size=ntraj) / 4.0
+    glob_len = glob_len.astype(gdt)
+    if rng.random() < 0.25:
+        glob_len = np.stack([glob_len, glob_len + 1], axis=1)
     rseeds = [int(x) for x in rng.integers(0, 2 ** 31, size=6)]
     frame_owner = int(rng.integers(0, size))
     frame_idx = int(rng.integers(0, len(local[frame_owner])))
@@ -332,9 +341,13 @@ def run_case(ctx, kind, rng, idx):
             if abs(out['mean'] - allv.mean()) > 1e-12:
                 ctx.violation('mpi.ops.mean', 'rank %d: %r vs %r' % (
                     r, out['mean'], allv.mean()))
-            if not np.array_equal(out['gather'], glob_len):
+            if not np.array_equal(out['gather'], glob_len) or \
+                    np.asarray(out['gather']).dtype != glob_len.dtype:
                 ctx.violation('mpi.ops.gather', 'rank %d: striped gather %s '
-                              'vs %s' % (r, out['gather'], glob_len))
+                              '%s vs %s %s' % (
+                                  r, np.asarray(out['gather']).dtype,
+                                  np.asarray(out['gather']).tolist()[:6],
+                                  glob_len.dtype, glob_len.tolist()[:6]))
             if out['randind'] != exp_rand:
                 ctx.violation('mpi.ops.randind', 'rank %d: %s, serial '
                               'definition %s' % (r, out['randind'], exp_rand))
